@@ -4,6 +4,18 @@
 
 #include "vtrace.hpp"
 
+#include <cstdio>
+#include <fstream>
+#include <sstream>
+#include <tao/pegtl/argv_input.hpp>
+#include <tao/pegtl/cstream_input.hpp>
+#include <tao/pegtl/istream_input.hpp>
+#include <tao/pegtl/read_input.hpp>
+#include <tao/pegtl/string_input.hpp>
+#if defined( __unix__ )
+#include <tao/pegtl/mmap_input.hpp>
+#endif
+
 namespace vt
 {
    using pegtl::apply_mode;
@@ -154,6 +166,99 @@ namespace vt
       } );
    }
 
+   // input classes (C07): every case through memory_input first (the reference the contract also validates), then
+   // through buffer_input with scripted readers and through the other input classes
+   inline std::vector< std::vector< int > >& reader_schedules()
+   {
+      static std::vector< std::vector< int > > v;  // filled by main from the TLC-generated schedule file
+      return v;
+   }
+   inline std::string& scratch_file()
+   {
+      static std::string p;
+      return p;
+   }
+
+   template< typename Root, template< typename... > class Act, template< typename... > class Ctl, apply_mode A, rewind_mode M >
+   void classes_one( const std::string& s )
+   {
+      CaseCfg c;
+      run_memory_case< Root, Act, Ctl, A, M, TE, LFCRLF >( c, s );
+      // buffer_input: ample buffer, three chunk sizes, reader delivering everything / byte by byte / 1,2 alternating
+      run_buffer_case< Root, Act, Ctl, A, M, LFCRLF, 64 >( c, s, s.size() + 16, {}, 0 );
+      run_buffer_case< Root, Act, Ctl, A, M, LFCRLF, 1 >( c, s, s.size() + 16, { 1 }, 1 );
+      run_buffer_case< Root, Act, Ctl, A, M, LFCRLF, 2 >( c, s, s.size() + 16, { 1, 2 }, 2 );
+      // every way a reader may deliver this many bytes in pieces of 1..3 (generated by TLC from spec/BufferInput.tla)
+      int id = 100;
+      for( const auto& sch : reader_schedules() ) {
+         int sum = 0;
+         for( int k : sch )
+            sum += k;
+         if( sum == int( s.size() ) && sch.size() > 1 ) {
+            run_buffer_case< Root, Act, Ctl, A, M, LFCRLF, 1 >( c, s, s.size() + 16, sch, id );
+         }
+         ++id;
+      }
+      // a buffer that is too small for some of the look-ahead: the only permitted deviation is std::overflow_error
+      run_buffer_case< Root, Act, Ctl, A, M, LFCRLF, 1 >( c, s, 1, { 2, 1 }, 3 );
+      run_buffer_case< Root, Act, Ctl, A, M, LFCRLF, 2 >( c, s, 2, {}, 4 );
+   }
+
+   template< typename Root, template< typename... > class Act, template< typename... > class Ctl, apply_mode A, rewind_mode M >
+   void classes_files( const std::string& s )
+   {
+      CaseCfg c;
+      {
+         pegtl::string_input<> in( s, "src" );
+         run_input_case< Root, Act, Ctl, A, M >( c, 3, s, in );
+      }
+      {
+         std::ofstream f( scratch_file(), std::ios::binary | std::ios::trunc );
+         f.write( s.data(), std::streamsize( s.size() ) );
+      }
+      {
+         pegtl::read_input<> in( scratch_file() );
+         run_input_case< Root, Act, Ctl, A, M >( c, 4, s, in );
+      }
+#if defined( __unix__ )
+      if( !s.empty() ) {
+         pegtl::mmap_input<> in( scratch_file() );
+         run_input_case< Root, Act, Ctl, A, M >( c, 5, s, in );
+      }
+#endif
+      if( s.find( '\0' ) == std::string::npos ) {
+         std::string copy = s;
+         char* argv[] = { const_cast< char* >( "prog" ), copy.data(), nullptr };
+         pegtl::argv_input<> in( argv, 1 );
+         run_input_case< Root, Act, Ctl, A, M >( c, 6, s, in );
+      }
+      {
+         std::istringstream is( s );
+         pegtl::istream_input<> in( is, s.size() + 16, "src" );
+         run_input_case< Root, Act, Ctl, A, M >( c, 7, s, in );
+      }
+      if( std::FILE* fp = std::fopen( scratch_file().c_str(), "rb" ) ) {
+         {
+            pegtl::cstream_input<> in( fp, s.size() + 16, "src" );
+            run_input_case< Root, Act, Ctl, A, M >( c, 8, s, in );
+         }
+         std::fclose( fp );
+      }
+   }
+
+   template< typename Root >
+   void cfgs_classes( const std::string& sigma, int maxlen )
+   {
+      g().fuel_cases = 0;
+      for_all_strings( sigma, maxlen, [ & ]( const std::string& s ) {
+         if( g().fuel_cases >= 3 )
+            return;
+         classes_one< Root, fam1, tc_full_uw, AA, MR >( s );
+         classes_one< Root, fam2, tc_hid, AA, MO >( s );
+         classes_files< Root, fam1, tc_hid_uw, AA, MR >( s );
+      } );
+   }
+
    // all five end-of-line policies, eager and lazy (C06)
    template< typename Root >
    void cfgs_eol( const std::string& sigma, int maxlen )
@@ -190,6 +295,20 @@ namespace vt
       if( argc >= 5 ) {
          s.shard = std::atoi( argv[ 3 ] );
          s.nshards = std::atoi( argv[ 4 ] );
+      }
+      scratch_file() = std::string( argv[ 1 ] ) + ".scratch";
+      if( argc >= 6 ) {
+         // reader schedules, one per line: space separated piece sizes
+         std::ifstream f( argv[ 5 ] );
+         std::string line;
+         while( std::getline( f, line ) ) {
+            std::istringstream ls( line );
+            std::vector< int > v;
+            int k;
+            while( ls >> k )
+               v.push_back( k );
+            reader_schedules().push_back( v );
+         }
       }
       return s;
    }
